@@ -1750,6 +1750,12 @@ pub fn gen_future(rng: &mut Rng) -> Program {
     for t in 1..nt {
         p.threads[t] = std::mem::take(&mut bodies[t]);
     }
+    if rng.chance(1, 5) {
+        // a future that wakes itself by reference from inside poll, somewhere
+        let t = rng.below(nt);
+        let at = if t == 0 { nt - 1 + rng.below(p.threads[0].len() - (nt - 1) - (nt - 1) + 1) } else { rng.below(p.threads[t].len() + 1) };
+        p.threads[t].insert(at, Op::SelfWake);
+    }
     p
 }
 
